@@ -50,6 +50,10 @@
 
 #include "engine/harness.hh"
 #include "problems/loop_zoo.hh"
+#if defined(__SANITIZE_ADDRESS__)
+#    include <sanitizer/asan_interface.h>
+#    include <sanitizer/common_interface_defs.h>
+#endif
 
 using namespace celeritas;
 using vf::fmt;
@@ -503,6 +507,8 @@ struct Sys
                     res = (*st)();
                 }
                 ++out.transitions;
+                if (asan_errors() != asan0)
+                    break;  // reported by the caller; do not go on with damaged memory
                 L.step(P->recorder->steps, begin, ch.log, res, events, cfg.slots, gamma_id,
                        electron_id);
                 // true numbers from the state
@@ -547,7 +553,7 @@ struct Sys
                 ++stepno;
             }
             out.canon = canon(*st);
-            if (drain)
+            if (drain && asan_errors() == asan0)
             {
                 // continue with the all-die default until the loop drains
                 static std::vector<int> const none;
@@ -564,6 +570,8 @@ struct Sys
                     ch.log.clear();
                     res = (*st)();
                     ++out.drain_steps;
+                    if (asan_errors() != asan0)
+                        break;
                     L.step(P->recorder->steps, begin, ch.log, res, {}, cfg.slots, gamma_id,
                            electron_id);
                     queued_prev = res.queued;
@@ -607,7 +615,10 @@ struct Sys
             {
                 std::string what = e.what();
                 auto nl = what.find("celeritas:");
-                L.fail("tracks:spurious-capacity-error",
+                // (own signature for errors that are not about the capacity at all, e.g. a valid
+                // event id rejected)
+                L.fail(what.find("capacity") != std::string::npos ? "tracks:spurious-capacity-error"
+                                                                  : "tracks:spurious-runtime-error",
                        fmt("call %zu (%d primaries, %u queued and %u alive before it, %zu tracks "
                            "stepped, thrown %s) needs %ld pending initializers, capacity %u, but "
                            "a RuntimeError was thrown: %s",
@@ -643,6 +654,41 @@ static void on_fatal_mt(int sig)
     }
     vf::detail::on_fatal(sig);
 }
+
+#if defined(__SANITIZE_ADDRESS__)
+//! AddressSanitizer ends the process on its own (fatal report / internal CHECK after wild
+//! writes): leave a crash record naming the dying thread's history, so that the driver reports
+//! a violation (asan:tracks) instead of a broken check
+static void on_asan_death()
+{
+    if (t_case[0])
+    {
+        size_t n = strnlen(t_case, sizeof(t_case) - 1);
+        memcpy(vf::detail::g_case, t_case, n);
+        vf::detail::g_case[n] = 0;
+    }
+    vf::detail::write_crash("ASAN", 0);
+    _exit(5);
+}
+//! Called by AddressSanitizer with the text of every report, BEFORE the offending access is
+//! executed: the report becomes a violation of the history the reporting thread is running and
+//! the run ends in an orderly way instead of going on with memory that is about to be damaged.
+static vf::Run* g_run = nullptr;
+static void on_asan_report(char const* text)
+{
+    static std::atomic<bool> entered{false};
+    if (entered.exchange(true) || !g_run)
+        return;
+    std::string t = text ? text : "";
+    g_run->violation("tracks:asan-report", t_case[0] ? t_case : vf::detail::g_case,
+                     "AddressSanitizer: " + t.substr(0, 1500));
+    g_run->end_case();
+    g_run->cap_hit("run stopped after its first AddressSanitizer report");
+    int rc = g_run->finish();
+    fflush(nullptr);
+    _exit(rc);
+}
+#endif
 
 template<class F>
 static void parallel_for(size_t n, unsigned nthreads, F&& f)
@@ -701,6 +747,7 @@ static void search(vf::Run& R, Config cfg, int max_depth, int max_primaries, uns
         std::string rc = R.replay_case();
         if (rc.compare(0, cname.size() + 1, cname + "|") != 0)
             return;
+        R.begin_case(rc, 600);
         Sys sys(cfg);
         History h = parse_history(rc.substr(cname.size() + 1));
         auto rp = sys.replay(h, true);
@@ -794,12 +841,33 @@ static void search(vf::Run& R, Config cfg, int max_depth, int max_primaries, uns
                 // the default-choice execution IS one of the transitions (all die+0)
                 probes[i].rp = sys[t]->replay(probe, false);
             });
+            bool asan_seen = false;
+            auto stop_if_asan = [&] {
+                if (!asan_seen)
+                    return;
+                // the heap may be corrupted (recover mode): end the run in an orderly way
+                R.end_case();
+                R.cap_hit("run stopped after the first batch with an AddressSanitizer report");
+                int rc = R.finish();
+                fflush(nullptr);
+                _exit(rc);
+            };
             std::vector<Task> tasks;
             // successor sets of the nodes of this batch, per injection count
             std::map<std::pair<size_t, int>, std::set<std::string>> succ_now;
             for (auto& pr : probes)
             {
                 R.count("transitions", pr.rp.transitions);
+                if (pr.rp.asan)
+                {
+                    History probe = frontier[pr.node].h;
+                    probe.push_back({pr.inject, {}});
+                    R.violation("tracks:asan-report", cname + "|" + to_string(probe),
+                                cname + ": AddressSanitizer reported an error while this history "
+                                        "(or one evaluated concurrently) ran");
+                    asan_seen = true;
+                    continue;
+                }
                 if (pr.rp.overflow)
                 {
                     // all-die choices: the queue cannot grow during the call, so the capacity
@@ -825,6 +893,7 @@ static void search(vf::Run& R, Config cfg, int max_depth, int max_primaries, uns
                 for (auto& ch : all)
                     tasks.push_back({pr.node, pr.inject, std::move(ch), {}});
             }
+            stop_if_asan();
             // ---- evaluate every child (parallel), then judge in enumeration order
             parallel_for(tasks.size(), nthreads, [&](size_t i, unsigned t) {
                 History h2 = frontier[tasks[i].node].h;
@@ -851,9 +920,12 @@ static void search(vf::Run& R, Config cfg, int max_depth, int max_primaries, uns
                     checked_determinism = true;
                 }
                 if (rp.asan)
+                {
                     R.violation("tracks:asan-report", cid,
                                 cname + ": AddressSanitizer reported an error while this history "
                                         "(or one evaluated concurrently) ran");
+                    asan_seen = true;
+                }
                 if (rp.exact_fit)
                     R.tag("capacity:exact-fit-reached");
                 if (rp.unchanged_after_emission)
@@ -884,6 +956,7 @@ static void search(vf::Run& R, Config cfg, int max_depth, int max_primaries, uns
                     next.push_back({h2, node.primaries + tk.inject, rp.canon, times});
                 }
             }
+            stop_if_asan();
             // ---- bisimulation: equal canon => equal successor sets, per injection count
             for (auto& kv : succ_now)
             {
@@ -943,6 +1016,11 @@ int main(int argc, char** argv)
     vf::Run R(argc, argv, "C02", "c02_tracks");
     for (int sig : {SIGSEGV, SIGBUS, SIGFPE, SIGILL, SIGABRT})
         signal(sig, on_fatal_mt);
+#if defined(__SANITIZE_ADDRESS__)
+    __sanitizer_set_death_callback(on_asan_death);
+    g_run = &R;
+    __asan_set_error_report_callback(on_asan_report);
+#endif
     bool const thorough = R.thorough();
     unsigned nthreads = std::thread::hardware_concurrency();
     if (char const* e = getenv("VERIF_THREADS"))
@@ -953,33 +1031,55 @@ int main(int argc, char** argv)
         nthreads = 16;
     if (R.nshards() != 1)
         R.harness_error("this harness is parallel inside one process: configure shards = 1");
-    std::vector<Config> cfgs;
-    std::vector<TrackOrder> orders = {TrackOrder::none, TrackOrder::init_charge,
-                                      TrackOrder::reindex_status, TrackOrder::reindex_particle_type,
-                                      TrackOrder::reindex_shuffle};
-    // smallest configurations first, so that a deadline cuts the largest ones
-    for (unsigned s : {1u, 2u, 3u})
-        for (unsigned q : {s, 2 * s, 16u})
-            for (auto o : orders)
-            {
-                if (!thorough && q == 16u && s > 1)
-                    continue;
-                if (!thorough && s == 3 && (o != TrackOrder::none && o != TrackOrder::init_charge))
-                    continue;
-                cfgs.push_back({s, q, o});
-            }
-    if (thorough)
+    // Configuration lattice with its depth bound (0 = not run in this tier).  The search below
+    // a configuration is complete up to the bound; 'fixpoint:' tags mark configurations whose
+    // frontier emptied before it (all of Q <= 2S do: the primaries bound makes them finite).
+    // Costs (evaluations) were measured per configuration; the largest come last so that a
+    // deadline cuts those.
+    struct Plan
+    {
+        Config cfg;
+        int depth;
+    };
+    std::vector<Plan> plan;
+    TrackOrder const none = TrackOrder::none, charge = TrackOrder::init_charge,
+                     status = TrackOrder::reindex_status, ptype = TrackOrder::reindex_particle_type,
+                     shuffle = TrackOrder::reindex_shuffle;
+    std::vector<TrackOrder> const all = {none, charge, status, ptype, shuffle};
+    auto add = [&](unsigned s, unsigned q, std::vector<TrackOrder> const& orders, int depth) {
         for (auto o : orders)
-            cfgs.push_back({4, 8, o});
+            plan.push_back({{s, q, o}, depth});
+    };
+    if (!thorough)
+    {
+        add(1, 1, all, 5);
+        add(1, 2, all, 5);
+        add(1, 16, all, 4);
+        add(2, 2, {none, charge, status}, 4);
+        add(2, 4, {none, charge}, 2);
+        add(3, 3, {none}, 2);
+    }
+    else
+    {
+        add(1, 1, all, 6);
+        add(1, 2, all, 6);
+        add(1, 16, all, 6);
+        add(2, 2, all, 6);
+        add(2, 4, all, 6);
+        add(2, 16, {status, ptype, shuffle}, 2);
+        add(2, 16, {none, charge}, 3);
+        add(3, 3, all, 2);
+        add(3, 6, {none, charge}, 2);
+        add(3, 16, {none}, 2);
+        add(4, 8, {none}, 2);
+    }
     Mismatch mismatch;
     char const* only = getenv("VERIF_C02_CONFIG");  // development aid: one configuration
-    for (auto const& c : cfgs)
+    for (auto const& pl : plan)
     {
-        if (only && c.name() != only)
+        if (only && pl.cfg.name() != only)
             continue;
-        int depth = thorough ? (c.slots <= 2 ? 6 : c.slots == 3 ? 4 : 3)
-                             : (c.slots == 1 ? 5 : c.slots == 2 ? 3 : 2);
-        search(R, c, depth, /*max_primaries=*/thorough ? 4 : 3, nthreads, &mismatch);
+        search(R, pl.cfg, pl.depth, /*max_primaries=*/thorough ? 4 : 3, nthreads, &mismatch);
         if (R.expired())
             break;
     }
